@@ -602,7 +602,12 @@ impl PathIssueManager {
         // Broadcast issue
         self.issue_broadcast_tx.send((id, marker.clone())).ok();
 
-        if self.cache.len() >= self.max_entries {
+        if self.cache.contains_key(&id) {
+            // Re-reported issue: it replaces its cache entry, so its old FIFO entry has to go as
+            // well. Otherwise the stale entry makes a later `pop_front` evict nothing and the
+            // FIFO grows with every repetition of the issue.
+            self.fifo_issues.retain(|(queued_id, _)| *queued_id != id);
+        } else if self.cache.len() >= self.max_entries {
             self.pop_front();
         }
 
